@@ -90,11 +90,11 @@ JOBS.update({
         wall_quick=55, wall_thorough=1200,
         assumptions=["the harness keeps its own belief of who holds each resource from the return values alone and compares it with the holder/in-use/available/held-by queries and the process's own list after every event"]),
     "C06": dict(level="fault_enumeration", rule=PROCS_RULE,
-        jobs=procs_jobs("C06", ["mix=res,faults=1", "mix=pool,faults=1", "mix=buf,faults=1", "mix=oq,faults=1", "mix=pq,faults=1", "mix=all,faults=2"], 400000, 16000000, crowd_mix="mix=all,faults=1,crowd=1", sweep_mixes=["mix=res", "mix=pool", "mix=buf", "mix=oq", "mix=pq"], churn=40000),
+        jobs=procs_jobs("C06", ["mix=res,faults=1", "mix=pool,faults=1", "mix=buf,faults=1", "mix=oq,faults=1", "mix=pq,faults=1", "mix=cond,faults=1", "mix=all,faults=2"], 400000, 16000000, crowd_mix="mix=all,faults=1,crowd=1", sweep_mixes=["mix=res", "mix=pool", "mix=buf", "mix=oq", "mix=pq"], churn=40000),
         wall_quick=55, wall_thorough=1200,
         assumptions=["judges wake-ups, not completion of a multi-step get/put (a woken waiter that finds nothing re-queues with a new entry time by design)",
                      "equal (priority, entry time) is left unordered; waiters whose priority was changed, or that ran, in the event of the grant are not compared",
-                     "conditions are excluded here (each waiter has its own predicate; see C13)",
+                     "conditions: each waiter has its own predicate, so what is judged is the order among the waiters that one signal (explicit or forwarded) finds satisfied: those that then resume with success in that instant must do so by (priority, waiting-since), unless a priority was set in between; one pass of the library over the waiters is recognised as a run of predicate evaluations with no harness step in between",
                      "a waiter that stays in a list without running must keep its waiting-since time, and whoever enters a list does so with the current time",
                      "that the waiting-list comparator is a heap order at all is certified by C02 (hheap engine, comparator taken from a freshly initialised guard)"]),
     "C07": dict(level="fault_enumeration", rule=PROCS_RULE,
